@@ -489,7 +489,13 @@ func cmsgRun(in *Sx) (out *Sx) {
 	} else {
 		enc = L(A("bytes"), B(bs), U(uint64(packets.TotalBytes(pub))))
 	}
-	return L(K("tb", U(uint64(tb))), K("pub", psx), K("enc", enc))
+	// and back: the message the broker would queue for this packet
+	from := A("panic")
+	func() {
+		defer func() { recover() }()
+		from = sxMsg(gmqtt.MessageFromPublish(pub))
+	}()
+	return L(K("tb", U(uint64(tb))), K("pub", psx), K("enc", enc), K("from", from))
 }
 
 // ---------------------------------------------------------------- the independent encoder (from the specifications)
